@@ -49,8 +49,11 @@ template <typename T, bool IsMagnitudeValid>
 struct OverflowChecker {
     // Default case: `IsMagnitudeValid` is true.
     static constexpr bool would_product_overflow(T x, T mag_value) {
-        return (x > (std::numeric_limits<T>::max() / mag_value)) ||
-               (x < (std::numeric_limits<T>::lowest() / mag_value));
+        // Scaling down can never overflow.  Treating this case separately also keeps the quotients
+        // below in range: with a floating point `T` and `mag_value < 1` they would overflow
+        // themselves, which is not permitted inside a constant expression.
+        return (mag_value > T{1}) && ((x > (std::numeric_limits<T>::max() / mag_value)) ||
+                                      (x < (std::numeric_limits<T>::lowest() / mag_value)));
     }
 };
 
